@@ -196,8 +196,6 @@ def gen_sequence(r, k, length, with_set=True):
             else:
                 c = r.choice(cvs)
                 fid = r.choice([0, 3, 4, 5, 6, 7, 8, 10, 11, 12, 17, 18, 19, 20, 27, r.randint(0, 37)])
-                if fid in (28, 29):     # running average / correlation function: enabling them by script divides by a zero stride (a C10/C20 matter, not C13)
-                    fid = 27
                 ev.append({"op": "set", "kind": "colvar", "name": c["name"], "fid": fid, "val": r.randint(0, 1)})
     # identity stream: no extended-Lagrangian variables and engine total forces that do not contain the Colvars
     # forces, so that a deleted bias cannot legitimately have changed the state of a survivor while it existed
@@ -436,6 +434,13 @@ W_F4 = ("natoms 3\nnew\nconfig EOF\ncolvar {\n  name d\n  distanceVec {\n    gro
         "dumpdeps\ndepsop 0 enable 4 0 1 0\ndumpdeps\necho END\n")
 
 
+# F5 (repaired in /repo: "fix: running average switched on by script divided by an uninitialised stride"): a capability
+# enabled at run time whose parameters were only ever initialised by the configuration keyword that enables it
+F5 = "script-set-running-average-sigfpe"
+W_F5 = ("natoms 2\nnew\nconfig EOF\n" + XZ + "EOF\nscriptset colvar x 28 1\npos 1 0 0 1.0\nstep\npos 1 0 0 2.0\nstep\npos 1 0 0 3.0\nstep\necho END\n")
+W_F5_REF = ("natoms 2\nnew\nconfig EOF\n" + XZ + "EOF\npos 1 0 0 1.0\nstep\npos 1 0 0 2.0\nstep\npos 1 0 0 3.0\nstep\necho END\n")
+
+
 def run_scn(unit, d, text, name="w.scn"):
     p = os.path.join(d, name)
     open(p, "w").write(text)
@@ -467,6 +472,20 @@ def replay_witnesses(run, unit, d, tabs, model):
                       "enable, the bias adds and removes one reference, reaching 0 auto-disables it): %s instead of %s" % (
                           [l for l in A if l.startswith("CV")], [l for l in B if l.startswith("CV")]),
                       {"kind": "identity", "scenario": W_F2, "reference": W_F2_REF})
+    # F5 (repaired in /repo; regression scenario that must pass): switching the running average on through the script
+    # interface must neither kill the process nor change what the variable reports
+    rc, o, e = run_scn(unit, d, W_F5)
+    rc2, o2, e2 = run_scn(unit, d, W_F5_REF)
+    run.count("witness:F5", True)
+    if "echo END" not in o:
+        run.violation(F5, "`cv colvar x set \"running average\" 1` followed by a step kills the process (rc=%d%s) in colvar::calc_runave: "
+                      "runave_stride/runave_length are only initialised when `runAve on` is read from the configuration" % (
+                          rc, ", SIGFPE" if rc in (-8, 136) else ""), {"kind": "scenario", "scenario": W_F5})
+    else:
+        A, B = last_step_block(o), last_step_block(o2)
+        if "err=ok" not in (A or [""])[0] or not obs_equal(A, B):
+            run.violation(F5 + ":observables", "switching the running average of x on by script changes the step results: %s instead of %s" % (A, B),
+                          {"kind": "identity", "scenario": W_F5, "reference": W_F5_REF})
     # F3: script "set <feature> off" of a feature with exactly one dependent
     rc, o, e = run_scn(unit, d, W_F3)
     dumps = D.parse_deps_blocks(o.split("\n"))
